@@ -90,6 +90,9 @@ def build_array(spec):
     dt = spec["dtype"]
     if dt == "int":
         arr = np.array([int(v.real) for v in vals], dtype=np.int64)
+    elif dt in ("uint8", "uint16", "int8", "int32", "float32"):
+        # other real NumPy dtypes a coefficient array may come in (an adjacency matrix stored as uint8, ...): same values
+        arr = np.array([v.real for v in vals]).astype(getattr(np, dt))
     elif dt == "float":
         arr = np.array([v.real for v in vals], dtype=np.float64)
     else:
@@ -528,6 +531,10 @@ def gen_layouts(op, tier, rng):
             ints = coeff_spec([L] * k, [[rng.randint(-3, 3), 0] for _ in range(L ** k)], "int")
             yield dict(one_field(L, [term(pat, ints)]), op=op, cls="layout:int")
             yield dict(one_field(L, [term(pat, dict(ints, order="F")), term("A", rand_coeffs(rng, L, 1, "dense"))]), op=op, cls="layout:int-fortran")
+            for dt in ("uint8", "uint16", "int8", "int32", "float32"):
+                lo = 0 if dt.startswith("u") else -3
+                small = coeff_spec([L] * k, [[rng.randint(lo, 3), 0] for _ in range(L ** k)], dt)
+                yield dict(one_field(L, [term(pat, small)]), op=op, cls="layout:" + dt)
 
 
 def gen_malformed(op, tier, rng):
